@@ -45,7 +45,7 @@ Proof.
 Qed.
 
 (* the same schedule on the fixed trace goes through *)
-Definition new_cfg := code_cfg 0 [dual] 1.
+Definition new_cfg := code_cfg 0 [dual] 1 0.
 Example new_trace_same_schedule :
   let c := run new_cfg (deadlock_schedule ++ [0; 0; 0; 0; 1; 1; 1]) in
   all_done c = true /\ ver c = 1 /\ map tlog (threads c) = [[[0; 0]]; []].
@@ -53,7 +53,7 @@ Proof. vm_compute. auto. Qed.
 
 (* ---- non-vacuity: a configuration with 3 requests of different kinds and 2 reloads ---- *)
 Definition ex_reqs := [dual; mkReq true false false false; mkReq true true false true; mkReq false false false false].
-Definition ex_cfg := code_cfg 5 ex_reqs 2.
+Definition ex_cfg := code_cfg 5 ex_reqs 2 1.
 
 Example ex_wf_init : wf_init ex_cfg.
 Proof. apply code_wf_init. Qed.
@@ -61,12 +61,12 @@ Proof. apply code_wf_init. Qed.
 (* a schedule in which request 0 sees the old selector for both families, request 1 the
    selector of the first reload and request 2 the one of the second *)
 Definition ex_schedule :=
-  [0; 0; 0;  4; 4;  1;  0; 0; 0;  4; 4; 4;  1; 1; 1; 1;  5; 5; 5; 5; 5;  2; 2; 2; 2; 2;  3; 3; 3; 3; 1; 1].
+  [0; 0; 0;  4; 4;  1;  0; 0; 0;  4; 4; 4;  1; 1; 1; 1;  5; 5; 5; 5; 5;  2; 2; 2; 2; 2;  3; 3; 3; 3; 1; 1; 6].
 
 Example ex_run :
   let c := run ex_cfg ex_schedule in
   all_done c = true /\ ver c = 7 /\
-  map (fun t => concat (tlog t)) (threads c) = [[5; 5]; [6]; [7; 7]; []; []; []].
+  map (fun t => concat (tlog t)) (threads c) = [[5; 5]; [6]; [7; 7]; []; []; []; []].
 Proof. vm_compute. auto. Qed.
 
 (* an intermediate configuration where a writer is pending and a reader holds the lock: the
